@@ -75,7 +75,8 @@ def judge(case, ir, mr):
     if case.get('kind') == 'isa-program':
         return IP.judge(case, ir, mr, 'C02')
     tags = []
-    bad, actual, det = LB.base_judge(case, ir, mr, tags)
+    mr, mt = LB.split(mr)
+    bad, actual, det = LB.base_judge(case, ir, mr, tags, mt)
     if bad:
         return bad
     st = case['files'][0]
